@@ -191,8 +191,11 @@ class Models:
         if isinstance(fn, ExtRef):
             h = self.ext_call.get(fn.path)
             if h is None:
-                raise AnalysisError(f'call of unmodelled library function {fn.path}', node,
-                                    where=_where(interp, node))
+                from . import bridge
+                try:
+                    return bridge.real_call(interp, fn.path, fn, args, kwargs, node)
+                except AnalysisError as e:
+                    raise AnalysisError(e.msg, node, where=_where(interp, node))
             return h(interp, args, kwargs, node)
         if isinstance(fn, ModelMethod):
             return self.call_method(interp, fn.obj, fn.name, args, kwargs, node)
@@ -206,6 +209,9 @@ class Models:
                 raise AbsRaise(ExcVal('TypeError', (str(e),)), node)
         if isinstance(fn, PyCallable):
             return fn.fn(interp, args, kwargs, node)
+        from . import bridge
+        if isinstance(fn, bridge.RealObj):
+            return bridge.real_call(interp, repr(fn), fn, args, kwargs, node)
         raise AnalysisError(f'call of non-callable / unmodelled value {fn!r}', node, where=_where(interp, node))
 
     def call_method(self, interp, obj, name, args, kwargs, node):
@@ -213,6 +219,13 @@ class Models:
             h = self.methods.get((klass, name))
             if h is not None:
                 return h(interp, obj, args, kwargs, node)
+        from . import bridge
+        from .vec import Vec, Sc
+        if isinstance(obj, (Vec, Sc)):
+            try:
+                return bridge.real_call(interp, f'{type(obj).__name__}.{name}', (obj, name), args, kwargs, node)
+            except AnalysisError as e:
+                raise AnalysisError(e.msg, node, where=_where(interp, node))
         raise AnalysisError(f'unmodelled method {type(obj).__name__}.{name}', node, where=_where(interp, node))
 
     def has_method(self, obj, name):
